@@ -652,16 +652,16 @@ def check_model_ventilation(ctx, prog, rule):
                        lambda a: a["inside_tenv"] and a["kind"] != "UNINHABITED", "a * hn * m", lmM, mv.loc())
 
 
-def check_classifiers(ctx, prog):
+def check_classifiers(ctx, prog, rule="c11.classifier"):
     tf = prog.method("types::common::Tilt", "convert::From", "from", inputs_contains="f32")
     hp = prog.method("bdl::envelope::walls::Wall", None, "position")
     of = prog.method("types::common::Orientation", "convert::From", "from", inputs_contains="f32")
     c1, d1 = TB.threshold_chain(tf)
     c2, d2 = TB.threshold_chain(hp)
     c3, d3 = TB.threshold_chain(of)
-    ctx.floor("c11.classifier", "tilt thresholds (model)", len(c1), 4)
-    ctx.floor("c11.classifier", "tilt thresholds (parser)", len(c2), 4)
-    ctx.floor("c11.classifier", "orientation thresholds", len(c3), 8)
+    ctx.floor(rule, "tilt thresholds (model)", len(c1), 4)
+    ctx.floor(rule, "tilt thresholds (parser)", len(c2), 4)
+    ctx.floor(rule, "orientation thresholds", len(c3), 8)
     pts = TB.partition_points([c1, c2], 0, 360)
     diff = []
     for x in pts:
@@ -670,15 +670,15 @@ def check_classifiers(ctx, prog):
         if a != b:
             diff.append("%s: model %s, parser %s" % (float(x), a, b))
     if diff:
-        ctx.violation("c11.classifier", "c11.classifier|tilt-agreement", "the parser and the model classify tilts differently at %s" % "; ".join(diff[:4]), tf.loc())
+        ctx.violation(rule, rule + "|tilt-agreement", "the parser and the model classify tilts differently at %s" % "; ".join(diff[:4]), tf.loc())
     else:
-        ctx.ok("c11.classifier", "c11.classifier|tilt-agreement", "bemodel Tilt::from and hulc Wall::position agree on all %d intervals and boundary points of [0, 360]" % len(pts), tf.loc())
+        ctx.ok(rule, rule + "|tilt-agreement", "bemodel Tilt::from and hulc Wall::position agree on all %d intervals and boundary points of [0, 360]" % len(pts), tf.loc())
     want = [("Le", 60, "TOP"), ("Lt", 120, "SIDE"), ("Lt", 240, "BOTTOM"), ("Lt", 300, "SIDE")]
     got = [(op, Fraction(c), TB.variant_of(r)) for (op, c, r, _, _) in c1]
     if got == [(o, Fraction(c), v) for o, c, v in want] and TB.variant_of(d1) == "TOP":
-        ctx.ok("c11.classifier", "c11.classifier|tilt-table", "<= 60 TOP, < 120 SIDE, < 240 BOTTOM, < 300 SIDE, else TOP", tf.loc())
+        ctx.ok(rule, rule + "|tilt-table", "<= 60 TOP, < 120 SIDE, < 240 BOTTOM, < 300 SIDE, else TOP", tf.loc())
     else:
-        ctx.violation("c11.classifier", "c11.classifier|tilt-table", "tilt classes are %s else %s" % ([(o, float(c), v) for o, c, v in got], TB.variant_of(d1)), tf.loc())
+        ctx.violation(rule, rule + "|tilt-table", "tilt classes are %s else %s" % ([(o, float(c), v) for o, c, v in got], TB.variant_of(d1)), tf.loc())
     for label, fn, chain in (("Tilt::from", tf, c1), ("Orientation::from", of, c3)):
         # compared operand has provenance normalize(x, 0, 360)
         okn = True
@@ -688,23 +688,23 @@ def check_classifiers(ctx, prog):
                 okn = False
         cs = [Fraction(c) for (_, c, _, _, _) in chain]
         inc = cs == sorted(cs) and len(set(cs)) == len(cs)
-        key = "c11.classifier|%s|normalised" % label
+        key = rule + "|%s|normalised" % label
         if okn and inc:
-            ctx.ok("c11.classifier", key, "every comparison is on normalize(angle, 0, 360); thresholds strictly increase (no dead arm)", fn.loc())
+            ctx.ok(rule, key, "every comparison is on normalize(angle, 0, 360); thresholds strictly increase (no dead arm)", fn.loc())
         else:
-            ctx.violation("c11.classifier", key, "comparisons on the raw angle (%s) or thresholds not increasing (%s): the class would depend on more than the angle modulo 360"
+            ctx.violation(rule, key, "comparisons on the raw angle (%s) or thresholds not increasing (%s): the class would depend on more than the angle modulo 360"
                           % (not okn, [float(c) for c in cs]), fn.loc())
     wanto = [(18, "S"), (69, "SE"), (120, "E"), (157.5, "NE"), (202.5, "N"), (240, "NW"), (291, "W"), (342, "SW")]
     goto = [(float(Fraction(c)), TB.variant_of(r)) for (op, c, r, _, _) in c3]
     if goto == [(float(a), b) for a, b in wanto] and TB.variant_of(d3) == "S" and all(op == "Lt" for (op, _, _, _, _) in c3):
-        ctx.ok("c11.classifier", "c11.classifier|orientation-table", "compass sectors 18/69/120/157.5/202.5/240/291/342, symmetric about south", of.loc())
+        ctx.ok(rule, rule + "|orientation-table", "compass sectors 18/69/120/157.5/202.5/240/291/342, symmetric about south", of.loc())
     else:
-        ctx.violation("c11.classifier", "c11.classifier|orientation-table", "orientation sectors are %s else %s" % (goto, TB.variant_of(d3)), of.loc())
+        ctx.violation(rule, rule + "|orientation-table", "orientation sectors are %s else %s" % (goto, TB.variant_of(d3)), of.loc())
     # normalize formula
     nf = prog.find("bemodel::utils::normalize")
     nsc = Scope(prog, nf)
     rn = returned_nodes(nf.body)
-    compare(ctx, "c11.classifier", "c11.classifier|normalize", strip(nsc._rw(rn[0][1])), "(v - s) - floor((v - s)/(e - s))*(e - s) + s",
+    compare(ctx, rule, rule + "|normalize", strip(nsc._rw(rn[0][1])), "(v - s) - floor((v - s)/(e - s))*(e - s) + s",
             LeafMap({"value": "v", "start": "s", "end": "e"}), None, nf.loc(), "normalize(v, s, e)")
 
 
